@@ -487,6 +487,57 @@ fn enc_into(
     }
 }
 
+// Verification hooks (see verif_hooks.rs): public names for private entry points of this module.
+#[cfg(raptorq_verif)]
+pub mod verif {
+    use super::*;
+
+    /// `gen_intermediate_symbols` with an explicit sparse threshold. Returns the intermediate
+    /// symbols (logical order) and the operation vector, or None when the solver gave up.
+    pub fn gen_intermediate_symbols_with_threshold(
+        source_block: &[Vec<u8>],
+        symbol_size: usize,
+        sparse_threshold: u32,
+    ) -> Option<(Vec<Vec<u8>>, crate::verif_hooks::PlainOps)> {
+        let symbols: Vec<Symbol> = source_block.iter().map(|s| Symbol::new(s.clone())).collect();
+        let (c, ops) = gen_intermediate_symbols(&symbols, symbol_size, sparse_threshold);
+        let c = c?;
+        let out = (0..c.len()).map(|i| c.get(i).to_vec()).collect();
+        Some((out, crate::verif_hooks::plain_ops(&ops.unwrap())))
+    }
+
+    /// Replay an operation list over D built from the source block (the plan path of the encoder).
+    pub fn gen_intermediate_symbols_from_plan(
+        source_block: &[Vec<u8>],
+        symbol_size: usize,
+        plan: &SourceBlockEncodingPlan,
+    ) -> Vec<Vec<u8>> {
+        let symbols: Vec<Symbol> = source_block.iter().map(|s| Symbol::new(s.clone())).collect();
+        let c = gen_intermediate_symbols_with_plan(&symbols, symbol_size, &plan.operations);
+        (0..c.len()).map(|i| c.get(i).to_vec()).collect()
+    }
+
+    pub fn plan_operations(plan: &SourceBlockEncodingPlan) -> crate::verif_hooks::PlainOps {
+        crate::verif_hooks::plain_ops(&plan.operations)
+    }
+
+    pub fn plan_symbol_count(plan: &SourceBlockEncodingPlan) -> u16 {
+        plan.source_symbol_count
+    }
+
+    pub fn create_symbols(config: &ObjectTransmissionInformation, data: &[u8]) -> Vec<Vec<u8>> {
+        SourceBlockEncoder::create_symbols(config, data)
+            .into_iter()
+            .map(|s| s.into_bytes())
+            .collect()
+    }
+
+    pub fn intermediate_symbols_of(encoder: &SourceBlockEncoder) -> Vec<Vec<u8>> {
+        let c = &encoder.intermediate_symbols;
+        (0..c.len()).map(|i| c.get(i).to_vec()).collect()
+    }
+}
+
 #[cfg(feature = "std")]
 #[cfg(test)]
 mod tests {
